@@ -12,6 +12,9 @@ MODULE = 'KdVerif.Props.C03'
 NAMESPACE = 'KdVerif.C03'
 TRUSTED = ['Model/ContainerV3 + Model/Construct + Model/Reader as models of parse_v3 / construct / BytesIO, tied by sections v3, '
            'v3-malformed, v3-seq, v3-api (events, logs, both tables, every metadata attribute, outcome kind; read counters are compared in C06)',
+           'Model/EndToEnd (version-3 branch of dumpOf: header + thread-map chunk at the first next, events of all chunks, log records '
+           'dropped, exception of the blocks behind the last chunk after every line) + the trace-layer and line-builder models it '
+           'composes, tied by section end-to-end (lines and final exception of formatted_traces on version-3 dumps, whole and cut)',
            'file grammar Spec/ContainerV3.encodeV3 (diffed byte for byte against the harness encoder, section encv3)',
            'plistlib.loads is opaque: the model gets, per payload, whether it loads and the keys the container parser reads '
            '(Binaries ids, Events with cm/tid/p/pid, StringIndex items); OsLogEvent decoding is compared only on '
@@ -254,6 +257,8 @@ def oracle_api(c, got):
 
 def correspondence(rep, rng, tier):
     quick = tier == 'quick'
+    from .. import pipeline as _PL
+    _PL.section_e2e(rep, rng, tier, n=(150 if quick else 3000), plain=0.7, only_v3=True)
     main = [mk_case(rng, ct.gen_v3(rng, small=(i % 3 == 0))) for i in range(400 if quick else 6000)]
     run_section(rep, 'v3', main, line_v3, impl_v3, oracle_fn=oracle_v3,
                 nontrivial_fn=lambda c, got: len(c['file']['chunks']) > 1 and len(c['file']['blocks']) > 0,
@@ -309,6 +314,9 @@ def replay(path):
         r = json.load(fd)
     rp = r['replay']
     sec, case = rp['section'], rp['case']
+    if sec == 'end-to-end':
+        from .. import pipeline as _PL
+        return _PL.replay_e2e(case, 'C03', path)
     fns = {'v3': (line_v3, impl_v3, oracle_v3), 'v3-junk': (line_v3, impl_v3, oracle_v3), 'v3-malformed': (line_v3, impl_v3, None),
            'v3-seq': (line_seq, impl_seq, oracle_seq), 'v3-api': (line_api, impl_api, oracle_api)}
     if sec not in fns:
@@ -334,8 +342,16 @@ LEVEL_TEXT = ('Lean theorems over the reader/construct model of parse_v3 against
               'v3_round_trip (whole reader incl. 8-byte realignment, size//64 loop, MORE continuation, seek(-8,1), '
               'Select(Aligned, plain) blocks), v3_events, v3_events_chunking, v3_events_before_logs, v3_threadmap, v3_blocks '
               '(last-wins / concatenation of metadata, logs in order resolved through the last string block, tables extended by '
-              'logs); the model is tied to the code by differential runs on generated dumps with real binary plists incl. all '
-              'parser attributes, parse sequences and the public kevents/os_log_events entry points.')
+              'logs); end to end (Model/EndToEnd, version-3 branch of the composition bytes -> formatted_traces lines): '
+              'e2e_dump_of_encoded_v3 (what traces/formatted_traces work on = the thread-map chunk + the decodings of the records of '
+              'ALL chunks in file order, log records dropped, final exception = the one KdBufParser.parse ends with, raised after '
+              'every event; no first-byte hypothesis — K1 is a v2 defect), e2e_dump_of_encoded_v3_ok (no exception under the '
+              'hypotheses of v3_blocks), e2e_threadmap_of_encoded_v3, e2e_lines_of_encoded_v3 (+ _ok: the lines = line builder '
+              'over traces of that dump; exception order rendering > trace layer > container), e2e_lines_chunking_v3 (lines '
+              'independent of chunking / filler / header / blocks), e2e_lines_v3_eq_v2 (same lines as the v2 file with that thread '
+              'map and those records); the model is tied to the code by differential runs on generated dumps with real binary '
+              'plists incl. all parser attributes, parse sequences, the public kevents/os_log_events entry points, and '
+              'formatted_traces on version-3 dumps (section end-to-end, incl. blocks that raise behind the last chunk and cuts).')
 LEVEL_NOTE = ('plistlib.loads and OsLogEvent decoding are opaque parameters of the model (BlockOk / LogsResolve state what must load); '
               '"the dump\'s string index" = the LAST string block (assumption of the specification). Trusted: Lean kernel, '
               'Model/Construct + Model/Reader as models of construct/BytesIO (diffed, not verified), Spec.encodeV3 as the meaning of '
